@@ -116,6 +116,13 @@ def sites(path, skip_lines):
     return out
 
 
+def owners_of(rel):
+    for prefix, lst in ORDER:
+        if prefix in rel:
+            return lst
+    return []
+
+
 def order_for(rel):
     first = []
     for prefix, lst in ORDER:
@@ -142,6 +149,7 @@ def main():
     ap.add_argument("--files", nargs="*", default=["*"])
     ap.add_argument("--kinds", nargs="*", default=None)
     ap.add_argument("--budget-min", type=float, default=1e9)
+    ap.add_argument("--owners-only", action="store_true", help="run only the checks that own the mutated layer (a survivor is then 'not killed by the owners')")
     a = ap.parse_args()
     rng = random.Random(a.seed)
     out = pathlib.Path(a.out or VERIF / ".work" / "mutsurvey" / f"seed{a.seed}.jsonl")
@@ -202,7 +210,7 @@ def main():
             killed = None
             ran = []
             t0 = time.time()
-            for c in order_for(rel):
+            for c in (order_for(rel)[: len(owners_of(rel))] if a.owners_only else order_for(rel)):
                 rc, so, se = run([str(VERIF / "check"), c], env=env, cwd=VERIF, timeout=2400)
                 ran.append(f"{c}:{rc}")
                 if rc == 1 and "VIOLATION" in so:
